@@ -8,6 +8,7 @@ Driver for C03.  Streams (see `harness/props/c03.py`):
 * `ifscanwf <which> <n> ITEM`    a conditional tree followed by `n` ordinary tokens; model = `processIf`
                                  on its spelling, spec = branch chosen by `texSelect`; aux = the token words
 * `cond <init> BODY`             a whole program: model = `run sem` on its spelling, spec = `den`; aux = token words
+* `newif <code points>`         the macro names `Context.newif` registers: model = `newifNames`, spec = `texSetterNames`
 * `toks <init> W*`               arbitrary (also unbalanced) token words run as a program; spec `-`
 
 token words `W`: `i<test>` `fi` `else` `or` `newif` `o<act>`;
@@ -231,6 +232,16 @@ def handle : List String → String
     match init? i, ws.mapM tok? with
     | some s, some ts => s!"{obsStr (run sem ts s [])}\t-"
     | _, _ => "bad-op"
+  | "newif" :: ws =>
+    match ws.mapM String.toNat? with
+    | some name =>
+      let dots := fun (l : List Nat) => ".".intercalate (l.map toString)
+      let (n, t, f) := newifNames name
+      let spec := match PlasVerif.Spec.TeXTests.texSetterNames name with
+        | some (t', f') => s!"ok:{dots name}|{dots t'}|{dots f'}"
+        | none => "-"
+      s!"ok:{dots n}|{dots t}|{dots f}\t{spec}"
+    | none => "bad-op"
   | _ => "bad-op"
 
 end PlasVerif.Driver.C03
